@@ -194,6 +194,20 @@ func execToArpa(args []string) string {
 			return out + " spec=bad:round-trip-" + HS(sp)
 		}
 	}
+	// the caller goes on using its slice: another address written into the same slice is encoded as
+	// that address (not as whatever was encoded from the slice before)
+	if len(ip) > 0 {
+		ip[len(ip)-1] ^= 0x5a
+		ip[0] ^= 0x01
+		s2, err2 := netutil.IPToReversedAddr(ip)
+		want2, ok2 := netip.AddrFromSlice(ip)
+		if ip4 := ip.To4(); ip4 != nil {
+			want2, ok2 = netip.AddrFromSlice(ip4)
+		}
+		if err2 == nil && ok2 && s2 != refName(want2) {
+			return out + " spec=bad:stale-name-after-the-slice-changed"
+		}
+	}
 	return out
 }
 
